@@ -134,8 +134,10 @@ impl Grid for Ntv2Grid {
     }
 
     fn at(&self, coord: &Coor4D, margin: f64) -> Option<Coor4D> {
+        // find_grid accepts a sub-grid with a tolerance of 1e-6 grid cells, so the
+        // interpolation must accept (at least) the same tolerance
         self.find_grid(coord, margin)
-            .and_then(|grid| grid.1.at(coord, margin))
+            .and_then(|grid| grid.1.at(coord, margin.max(1e-6)))
     }
 }
 
